@@ -1,12 +1,12 @@
 CONSTANTS
   StartLines <- SL_Two
   Cat <- Catalogue
-  HdrIdx = {1,2,3,6,11,12,14,16,17,21}
+  HdrIdx = {1,2,6,11,12,14,17,21}
   MaxH = 2
   Bodies <- Bodies3
-  Peers <- PeersTwo
+  Peers <- PeersOne
   ClNames <- ClOne
-  ClPos = {"first","last"}
+  ClPos = {"last"}
   Mode = "machine"
   Cap = 8192
   Dev = {}
